@@ -68,7 +68,11 @@ Twice == {
   P6("twice", <<Chest("c", 0, 0), Place("e", "small-lamp", 3, 0), Enable("e", Bin(">", Bin("*", CS("c", "iron-plate"), CS("c", "iron-plate")), Num(30)))>>, CI("c")),
   P6("twice", <<InA, Place("e", "small-lamp", 0, 0), Enable("e", Bin(">", Bin("+", A, A), Num(7)))>>, <<>>)
  }
-C06All == Scalar \cup SameT \cup Multi \cup Cont \cup Twice
+\* conditional values with a CONSTANT output other than 1 as the condition (fourth seeded round: the inlining guard `output == 1`
+\* widened to any non-zero constant): the entity is on exactly when cond : K is positive, so never for a negative K
+CondK == {P6("condk", <<InA, InB, Place("e", pr, 0, 0), Enable("e", CondE(c, Num(k)))>>, <<>>) :
+            pr \in {"small-lamp", "inserter"}, c \in {Bin(">", A, Num(3)), Bin("<=", A, Num(4)), Bin("<", Num(4), A), Bin(">", A, B)}, k \in {-2, 2, 5}}
+C06All == CondK \cup Scalar \cup SameT \cup Multi \cup Cont \cup Twice
 
 (* ------------------------------- C09 ------------------------------------ *)
 P9(grp, stmts) == [grp |-> grp, stmts |-> stmts, src |-> Render(stmts)]
